@@ -32,16 +32,21 @@ type regSpec struct {
 type op struct {
 	remove bool
 	spec   regSpec
+	// macro operation of the resize scope: make the chain hold exactly the regions lo..hi-1
+	resize bool
+	lo, hi int
 }
 
 type model struct {
-	ops    []op
-	pcs    []peerCfg
-	ri     *core.RegionsInfo
-	ref    map[uint64]regSpec
-	base   []regSpec // pre-loaded chain (large scope)
-	probes []string
-	stores []uint64
+	ops         []op
+	pcs         []peerCfg
+	ri          *core.RegionsInfo
+	ref         map[uint64]regSpec
+	base        []regSpec // pre-loaded chain (large scope)
+	probes      []string
+	stores      []uint64
+	resizeScope bool
+	path        []int
 }
 
 func (m *model) mk(s regSpec) *core.RegionInfo {
@@ -82,6 +87,7 @@ func overlap(a, b regSpec) bool {
 }
 
 func (m *model) Reset() {
+	m.path = nil
 	m.ri = core.NewRegionsInfo()
 	m.ref = map[uint64]regSpec{}
 	for _, s := range m.base {
@@ -93,6 +99,9 @@ func (m *model) Reset() {
 func (m *model) NumOps() int { return len(m.ops) }
 func (m *model) OpName(i int) string {
 	o := m.ops[i]
+	if o.resize {
+		return fmt.Sprintf("resize(chain=%d..%d)", o.lo, o.hi)
+	}
 	if o.remove {
 		return fmt.Sprintf("remove(%d)", o.spec.id)
 	}
@@ -116,6 +125,10 @@ func (m *model) sorted() []regSpec {
 }
 
 func (m *model) Key() string {
+	if m.resizeScope {
+		// the B-tree shape depends on the path, not only on the content: no merging
+		return fmt.Sprint(m.path)
+	}
 	var b strings.Builder
 	for _, s := range m.sorted() {
 		if len(m.base) > 0 && s.id < 1000 {
@@ -154,8 +167,31 @@ func idOf(r *core.RegionInfo) uint64 {
 	return r.GetID()
 }
 
+func chainSpec(i int) regSpec {
+	key := func(i int) string { return fmt.Sprintf("%04d", i) }
+	return regSpec{id: uint64(i + 1), start: key(i), end: key(i + 1), pc: i % 2, size: int64(1 + i%5)}
+}
+
 func (m *model) Apply(i int) *hist.Violation {
 	o := m.ops[i]
+	m.path = append(m.path, i)
+	if o.resize {
+		// grow first (ascending), then shrink: every region is put / removed one by one
+		for k := o.lo; k < o.hi; k++ {
+			s := chainSpec(k)
+			if _, ok := m.ref[s.id]; !ok {
+				m.ri.SetRegion(m.mk(s))
+				m.ref[s.id] = s
+			}
+		}
+		for _, s := range m.sorted() {
+			if k := int(s.id) - 1; k < o.lo || k >= o.hi {
+				m.ri.RemoveRegion(m.ri.GetRegion(s.id))
+				delete(m.ref, s.id)
+			}
+		}
+		return m.compare(m.OpName(i))
+	}
 	if o.remove {
 		if r := m.ri.GetRegion(o.spec.id); r != nil {
 			m.ri.RemoveRegion(r)
@@ -378,6 +414,9 @@ func (m *model) compare(after string) *hist.Violation {
 }
 
 func (m *model) randRanges() [][2]string {
+	if m.resizeScope {
+		return [][2]string{{"", ""}, {"0100", "0150"}, {"0300", ""}}
+	}
 	if len(m.base) > 0 {
 		return [][2]string{{"", ""}, {"0010", "0020"}, {"0063", "0066"}, {"0120", ""}}
 	}
@@ -452,6 +491,18 @@ func newLarge() *model {
 	return m
 }
 
+// newResize: grow / shrink / regrow the key space so that B-tree nodes are split, merged,
+// freed and reused (per-store trees included); rank queries behind the random picks are
+// compared after every macro step.
+func newResize() *model {
+	m := &model{pcs: pcsSmall[:2], stores: []uint64{1, 2}, resizeScope: true}
+	m.probes = []string{"", "0000", "0063", "0064", "0127", "0128", "0191", "0200", "0399", "9"}
+	for _, r := range [][2]int{{0, 0}, {0, 100}, {0, 200}, {0, 400}, {100, 200}, {300, 400}, {0, 130}, {190, 400}} {
+		m.ops = append(m.ops, op{resize: true, lo: r[0], hi: r[1]})
+	}
+	return m
+}
+
 var _ = bytes.Equal
 
 func main() {
@@ -462,10 +513,12 @@ func main() {
 			{Name: "3ids-3points", Tiers: "quick", Depth: 2, NewModel: func() hist.Model { return newSmall(3, 5, []int64{1, 10}, []string{"a", "b", "c"}) }},
 			{Name: "3ids-3points/3", Tiers: "quick", Depth: 3, NewModel: func() hist.Model { return newSmall(3, 2, []int64{1}, []string{"a", "b", "c"}) }},
 			{Name: "chain140", Tiers: "quick", Depth: 2, NewModel: func() hist.Model { return newLarge() }},
+			{Name: "resize", Tiers: "quick", Depth: 3, NewModel: func() hist.Model { return newResize() }},
+			{Name: "resize@4", Tiers: "thorough", Depth: 4, NewModel: func() hist.Model { return newResize() }},
 			{Name: "4ids-4points", Tiers: "thorough", Depth: 4, NewModel: func() hist.Model { return newSmall(4, 5, []int64{0, 1, 10}, []string{"a", "b", "c", "d"}) }},
 			{Name: "chain140@3", Tiers: "thorough", Depth: 3, NewModel: func() hist.Model { return newLarge() }},
 		},
-		Rule: "breadth-first over all put/remove sequences of the region alphabet (ids x ranges over the key points incl. unbounded ends and ranges swallowing neighbours x peer/leader/pending configurations x sizes); states deduplicated by the sorted region list; after every operation every query is compared with a linear scan and every outcome of the random picks is enumerated",
+		Rule:        "breadth-first over all put/remove sequences of the region alphabet (ids x ranges over the key points incl. unbounded ends and ranges swallowing neighbours x peer/leader/pending configurations x sizes); states deduplicated by the sorted region list; after every operation every query is compared with a linear scan and every outcome of the random picks is enumerated",
 		Assumptions: []string{"reference = slice + linear scan written from the statement", "math/rand draws in server/core are enumerated exhaustively through the vrand shim"},
 	})
 }
